@@ -23,11 +23,11 @@ import itertools
 import math
 
 from ..coqrun import cN, cbool, clist, copt
-from ..tok import S
+from ..tok import SETMARK
 from ..gen import graphs as G
 
 PID = "C06"
-COQ_HEADER = ("From Coq Require Import List NArith.\nFrom SK Require Import lib.Tok lib.LGraph model.C06_Model model.C06_Attrs model.C06_Trace.\n"
+COQ_HEADER = ("From Coq Require Import List NArith.\nFrom SK Require Import lib.Tok lib.LGraph model.C06_Model model.C06_Attrs model.C06_Trace model.C06_Hist.\n"
               "Import ListNotations.\n")
 SHARD = 250
 IMPL_TIMEOUT = 900
@@ -45,7 +45,9 @@ EXPLANATION = ("Exhaustive sub-space: quick = every iso class of hosts <= 3 node
                "(quick: 1 500 host<=4 x pattern<=3 class pairs, 1 200 random molecule-like pairs, 1 200 ordered cases with limit "
                "configurations and recorded VF2 order). Theorems are about the Gallina model parameterised by the VF2 oracle (any "
                "duplicate-free listing of the valid monomorphisms); the correspondence compares result multisets (lists when limits "
-               "are set), component partitions and pre-filter verdicts.")
+               "are set), component partitions, pre-filter verdicts and the trace of VF2 calls.  One presentation per isomorphism class "
+               "suffices for the exhaustive scopes: the sets of (separating) monomorphisms of two presentations correspond through the "
+               "renaming (C06_all_presentation_invariant, C06_comp_presentation_invariant, C06_component_count_invariant).")
 TRUSTED_BASE = [
     "Coq 8.16.1 kernel + vm_compute (no native_compute)",
     "hand-written model coq/model/C06_Model.v tied to synkit/Graph/Matcher/subgraph_matcher.py by the per-run correspondence",
@@ -71,18 +73,20 @@ ASSUMPTIONS = ["graphs are simple undirected networkx Graphs without self-loops 
                "result would not be past the threshold (docstring: 'enumeration guard'); second alternative of C06_limits, witness "
                "C06_limits_guard_reachable; accepted by the oracle"]
 TESTED_NOT_PROVED = ["inputs are not modified (pure model; the adapter deep-compares host and pattern before/after every call)",
-                     "absence of state between calls (class/instance/module level): histories on one engine object and shared graph "
-                     "objects with in-place edits and caller-mutated results, every step compared with a fresh evaluation",
+                     "absence of state between calls in the Python code (class/instance/module level): histories on one engine object and "
+                     "shared graph objects with in-place edits and caller-mutated results; the MODEL of a history is the state machine "
+                     "run_history of model/C06_Hist.v (the two objects as state, networkx edit semantics, pure searches), compared step "
+                     "by step with the live objects, and the oracle compares every step with a fresh evaluation",
                      "call spellings that do not reach the model (instance vs class, host/pattern by keyword, tuples for attribute lists)",
                      "the VF2 contract for inputs that were not run (premise of the theorems; discharged inside Coq for every case that "
                      "is run, see TRUSTED_BASE)"]
-LEVEL_TEXT = ("Machine-checked proof (Coq, all inputs, 31 theorems closed under the global context) over an executable, "
+LEVEL_TEXT = ("Machine-checked proof (Coq, all inputs, 48 theorems closed under the global context) over an executable, "
               "structure-following model of SubgraphSearchEngine.find_subgraph_mappings parameterised by the VF2 enumeration: "
               "ALL = exactly the label-preserving monomorphisms, duplicate-free (under the VF2 contract, which the verified enumerator "
               "provably meets); COMPONENT = exactly those sending different pattern components into different host components, duplicate-free, all of "
               "them when the host has fewer components, [] under the strict_cc_count guard; BACKTRACK = COMPONENT if non-empty else ALL; "
               "for every max_results/threshold the result is the prefix of length min of the unlimited list, emptied past the threshold, "
-              "or (comp/bt) the per-component enumeration guard fired; the pre-filter skips only when there is provably no match or its documented estimate guard fired; the call interface (strategy spellings, option defaults) is modelled and specified; the attribute dictionaries, the selections node_attrs / edge_attrs and the two match closures are modelled (the exhaustive strategy is exact in terms of the caller's dictionaries; a selection is a set of names; a larger selection only removes matches; the component-aware and fallback clauses are stated on the caller's graphs as well); the VF2 calls of every search (host part, pattern part, number of monomorphisms pulled) are modelled and compared (closed form of the consumption; never more than threshold + 1 per call).  Model tied to the code on every run by comparing result "
+              "or (comp/bt) the per-component enumeration guard fired; the pre-filter skips only when there is provably no match or its documented estimate guard fired; the call interface (strategy spellings, option defaults) is modelled and specified; the attribute dictionaries, the selections node_attrs / edge_attrs and the two match closures are modelled (the exhaustive strategy is exact in terms of the caller's dictionaries; a selection is a set of names; a larger selection only removes matches; the component-aware and fallback clauses are stated on the caller's graphs as well); the VF2 calls of every search (host part, pattern part, number of monomorphisms pulled) are modelled and compared (closed form of the consumption; never more than threshold + 1 per call; the per-component lists are determined by the trace); histories are a state machine over the caller's two objects (in-place edits with networkx semantics, edits of non-selected attributes provably invisible); results are invariant under renaming of node ids and re-ordering of the node / edge lists.  Model tied to the code on every run by comparing result "
               "multisets/lists, component partitions and pre-filter verdicts on exhaustive small scopes and random populations.")
 LEVEL_NOTE = ("Trusted: Coq kernel, the model, the harness encoder, the VF2 contract (monitored per case; networkx itself is not "
               "verified).  Not proved: input immutability of the Python code (monitored).")
@@ -126,8 +130,16 @@ def _call(H, P, case, cfg, style="kw", engine=None):
     return f(H, P, **kw)
 
 
+def S(xs):
+    """An unordered collection inside an observable, in the COMPACT form of the tok image itself: a tuple that starts with the
+    set mark (tok.obs_to_tok maps tuples to lists; tok.thash sums over the members of a marked list, so no sorting is
+    needed).  The dict form tok.S() costs ~300 bytes per set; the thorough tier holds ~4 * 10^5 observables in the parent
+    process (7.9 GB resident with dicts, measured 2026-09-29)."""
+    return (SETMARK,) + tuple(xs)
+
+
 def _mp(m):
-    return S([[p, h] for p, h in m.items()])
+    return S((p, h) for p, h in m.items())
 
 
 def _snapshot(g):
@@ -160,11 +172,11 @@ def impl(case):
             tr = rec.trace()
             q = SSE._quick_pre_filter(H, P, list(case["na"]), _thr(cfg[2]))
             ms = [_mp(m) for m in r]
-            out.append([bool(q), ms if ordered else S(ms), tr])
-    obs = [_comps_obs(H), _comps_obs(P), out]
+            out.append((bool(q), tuple(ms) if ordered else S(ms), tr))
+    obs = [_comps_obs(H), _comps_obs(P), tuple(out)]
     # leading flags: the model evaluates the input premise gwf of the theorems (and, for ordered cases, the VF2
     # contract monitor table_ok); both must be true
-    return [True] + (([True] + obs) if ordered else obs)
+    return tuple([True] + (([True] + obs) if ordered else obs))
 
 
 # ---- call interface: what the user passes is handed over unchanged; the MODEL decides defaults and spellings
@@ -232,12 +244,23 @@ def _edit_dict(g, e):
         [a for n, a in nodes if n == e[1]][0].pop(e[2], None)
     elif op == "set_edge_attr":
         [a for u, v, a in edges if {u, v} == {e[1], e[2]}][0][e[3]] = e[4]
-    elif op == "add_edge":
-        edges.append([e[1], e[2], dict(e[3])])
+    elif op == "add_edge":          # networkx: an existing edge has its dictionary updated; missing end nodes are created
+        ex = [a for u, v, a in edges if {u, v} == {e[1], e[2]}]
+        if ex:
+            ex[0].update(e[3])
+        else:
+            for x in (e[1], e[2]):
+                if not any(n == x for n, _ in nodes):
+                    nodes.append([x, {}])
+            edges.append([e[1], e[2], dict(e[3])])
     elif op == "remove_edge":
         g["edges"] = [x for x in edges if {x[0], x[1]} != {e[1], e[2]}]
-    elif op == "add_node":
-        nodes.append([e[1], dict(e[2])])
+    elif op == "add_node":          # networkx: an existing node has its dictionary updated
+        ex = [a for n, a in nodes if n == e[1]]
+        if ex:
+            ex[0].update(e[2])
+        else:
+            nodes.append([e[1], dict(e[2])])
     elif op == "remove_node":
         g["nodes"] = [x for x in nodes if x[0] != e[1]]
         g["edges"] = [x for x in edges if e[1] not in (x[0], x[1])]
@@ -256,6 +279,7 @@ def _run_history(case):
 
 
 def _run_history_steps(case, obj, eng, results, out, rec):
+    from synkit.Graph.Matcher.subgraph_matcher import SubgraphSearchEngine as SSE
     for st in case["steps"]:
         if st["op"] == "edit":
             _edit_nx(obj[st["side"]], st["edit"])
@@ -274,22 +298,18 @@ def _run_history_steps(case, obj, eng, results, out, rec):
             rec.clear()
             r = _call(Hh, Pp, sub, st["cfg"], st.get("style", "kw"), engine=eng)
             results.append(r)
-            out.append((Hh, Pp, [dict(m) for m in r], sub, st["cfg"], rec.trace()))
+            tr = rec.trace()
+            # components and pre-filter verdict of the LIVE objects at this moment (the implementation's state, networkx
+            # edit semantics) - the model carries its own state through the script (model/C06_Hist.v)
+            live = [_comps_obs(Hh), _comps_obs(Pp), bool(SSE._quick_pre_filter(Hh, Pp, list(st["na"]), _thr(st["cfg"][2])))]
+            out.append((Hh, Pp, [dict(m) for m in r], sub, st["cfg"], tr, live))
     return out
 
 
 def _impl_history(case):
-    from synkit.Graph.Matcher.subgraph_matcher import SubgraphSearchEngine as SSE
-    out = []
-    for Hh, Pp, r, sub, cfg, tr in _run_history(case):
-        # the graphs may have been edited since; the snapshot components / pre-filter verdict of THIS step come from the
-        # step's own snapshot (rebuilt fresh from the JSON form computed at generation time)
-        out.append((S([_mp(m) for m in r]), tr))
-    steps = []
-    for snap, (res, tr) in zip(case["snaps"], out):
-        H, P = G.to_nx(snap["host"]), G.to_nx(snap["pattern"])
-        q = SSE._quick_pre_filter(H, P, list(snap["na"]), _thr(snap["cfg"][2]))
-        steps.append([True, _comps_obs(H), _comps_obs(P), [[bool(q), res, tr]]])
+    steps = [True]      # premise monitor of the history theorems (one entry per key in every dictionary): evaluated by the model
+    for Hh, Pp, r, sub, cfg, tr, live in _run_history(case):
+        steps.append((True, live[0], live[1], ((live[2], S(_mp(m) for m in r), tr),)))
     return steps
 
 
@@ -333,7 +353,7 @@ class record_vf2:
 
     def trace(self):
         """The VF2 calls made since the last clear(), in order: [host part, pattern part, items pulled]."""
-        return [[S(sorted(hn)), S(sorted(pn)), k] for hn, pn, _, k in self.rec]
+        return tuple((S(sorted(hn)), S(sorted(pn)), k) for hn, pn, _, k in self.rec)
 
     def clear(self):
         del self.rec[:]
@@ -381,7 +401,7 @@ class _Names:
     """Attribute NAMES -> key codes (any hashable name; the same table for node and edge attributes)."""
 
     def __init__(self):
-        self.t = {}
+        self.t = {"hcount": 1}          # HCOUNT_KEY of model/C06_Hist.v
 
     def __call__(self, k):
         if not isinstance(k, str):
@@ -431,6 +451,59 @@ def _coq_pair(host, pattern, na, ea):
     return "%s %s %s %s" % (sel[0], sel[1], h, p)
 
 
+def _hc_num(v):
+    if not isinstance(v, int) or v < 0:
+        raise TypeError("hcount outside the model domain")
+    return int(v)
+
+
+def _coq_nlab(a, names, codes):
+    return "(%s, %s)" % (_coq_dict(a, names, codes), copt(cN(_hc_num(a["hcount"])) if "hcount" in a else None))
+
+
+def _coq_edit(e, names, codes):
+    op = e[0]
+    if op == "set_node_attr":
+        return "(ESetNodeAttr %s %s %s %s)" % (cN(e[1]), cN(names(e[2])), cN(codes(e[3])), cN(_hc_num(e[3]) if e[2] == "hcount" else 0))
+    if op == "del_node_attr":
+        return "(EDelNodeAttr %s %s)" % (cN(e[1]), cN(names(e[2])))
+    if op == "set_edge_attr":
+        return "(ESetEdgeAttr %s %s %s %s)" % (cN(e[1]), cN(e[2]), cN(names(e[3])), cN(codes(e[4])))
+    if op == "add_edge":
+        if e[1] == e[2]:
+            raise TypeError("self-loop")
+        return "(EAddEdge %s %s %s)" % (cN(e[1]), cN(e[2]), _coq_dict(e[3], names, codes))
+    if op == "remove_edge":
+        return "(ERemoveEdge %s %s)" % (cN(e[1]), cN(e[2]))
+    if op == "add_node":
+        return "(EAddNode %s %s)" % (cN(e[1]), _coq_nlab(e[2], names, codes))
+    if op == "remove_node":
+        return "(ERemoveNode %s)" % cN(e[1])
+    raise ValueError(op)
+
+
+def _coq_history(case):
+    """The script itself goes to the model (initial objects + edits + searches): model/C06_Hist.v carries the state."""
+    names, codes = _Names(), _Codes()
+    if any(u == v for u, v, _ in case["host"]["edges"] + case["pattern"]["edges"]):
+        return None
+    try:
+        h = _coq_rgraph(case["host"], names, codes)
+        p = _coq_rgraph(case["pattern"], names, codes)
+        steps = []
+        for st in case["steps"]:
+            if st["op"] == "edit":
+                steps.append("HEdit %s %s" % (cbool(st["side"] == "host"), _coq_edit(st["edit"], names, codes)))
+            elif st["op"] == "mutate_result":
+                steps.append("HMutateResult")
+            else:
+                steps.append("HSearch %s %s %s %s" % (cbool(bool(st.get("swap"))), clist([cN(names(k)) for k in st["na"]]),
+                                                      clist([cN(names(k)) for k in st["ea"]]), _coq_cfg(st["cfg"])))
+    except TypeError:
+        return None
+    return "run_history %s %s %s" % (h, p, clist(steps))
+
+
 def _coq_sarg(sa):
     if sa is None:
         return "SDefault"
@@ -444,13 +517,7 @@ def _coq_sarg(sa):
 def coq_case(case):
     kind = case.get("kind")
     if kind == "history":
-        terms = []
-        for snap in case["snaps"]:
-            hp = _coq_pair(snap["host"], snap["pattern"], snap["na"], snap["ea"])
-            if hp is None:
-                return None
-            terms.append("run_tr_set %s %s" % (hp, clist([_coq_cfg(snap["cfg"])])))
-        return "L %s" % clist(["(%s)" % t for t in terms])
+        return _coq_history(case)
     hp = _coq_pair(case["host"], case["pattern"], case["na"], case["ea"])
     if hp is None:
         return None
@@ -513,6 +580,35 @@ def _brute(H, P, na, ea, hnodes=None, pnodes=None):
                 img.pop()
     go(0)
     return out
+
+
+def _count_upto(H, P, na, ea, cap):
+    """Number of label-preserving monomorphisms, counting stops at `cap` (generators use it to bound enumeration sizes)."""
+    hn, pn = list(H.nodes), list(P.nodes)
+    pos = {p: i for i, p in enumerate(pn)}
+    back = [[] for _ in pn]
+    for u, v, d in P.edges(data=True):
+        i, j = max(pos[u], pos[v]), min(pos[u], pos[v])
+        back[i].append((j, d))
+    cand = [[h for h in hn if all(H.nodes[h].get(a) == P.nodes[p].get(a) for a in na)
+             and H.nodes[h].get("hcount", 0) >= P.nodes[p].get("hcount", 0)] for p in pn]
+    img, n = [], [0]
+
+    def go(i):
+        if n[0] >= cap:
+            return
+        if i == len(pn):
+            n[0] += 1
+            return
+        for h in cand[i]:
+            if h in img:
+                continue
+            if all(H.has_edge(img[j], h) and all(H[img[j]][h].get(a) == d.get(a) for a in ea) for j, d in back[i]):
+                img.append(h)
+                go(i + 1)
+                img.pop()
+    go(0)
+    return n[0]
 
 
 def _brute_product(H, P, na, ea, hnodes=None, pnodes=None):
@@ -585,7 +681,7 @@ def _oracle_history(case):
         run = _run_history(case)
     except Exception as e:
         return [dict(clause="raises", detail="history: %s: %s" % (type(e).__name__, e))]
-    for i, ((Hh, Pp, r, sub, cfg, _tr), snap) in enumerate(zip(run, case["snaps"])):
+    for i, ((Hh, Pp, r, sub, cfg, _tr, _live), snap) in enumerate(zip(run, case["snaps"])):
         fresh = _call(G.to_nx(snap["host"]), G.to_nx(snap["pattern"]), snap, snap["cfg"])
         if sorted(sorted(m.items()) for m in r) != sorted(sorted(m.items()) for m in fresh):
             fails.append(dict(clause="history-step-differs-from-fresh",
@@ -753,8 +849,14 @@ def oracle(case):
 
 # ------------------------------------------------------------------ evidence helpers
 
+def _is_set(r):
+    return isinstance(r, (list, tuple)) and len(r) > 0 and isinstance(r[0], int) and not isinstance(r[0], bool) and r[0] == SETMARK
+
+
 def _len(r):
-    return len(r["__set__"]) if isinstance(r, dict) else len(r)
+    if isinstance(r, dict):
+        return len(r["__set__"])
+    return len(r) - 1 if _is_set(r) else len(r)
 
 
 def nontrivial(case, obs):
@@ -762,10 +864,9 @@ def nontrivial(case, obs):
     if kind == "api":
         return any(isinstance(x, list) and _len(x[0]) > 0 for x in obs[1])
     if kind == "history":
-        return any(_len(step[3][0][1]) > 0 for step in obs)
+        return any(_len(step[3][0][1]) > 0 for step in obs[1:])
     o = obs[2:] if case.get("vf2") is not None else obs[1:]
-    first = o[2][0][1]
-    n = len(first["__set__"]) if isinstance(first, dict) else len(first)
+    n = _len(o[2][0][1])
     h, p = len(case["host"]["nodes"]), len(case["pattern"]["nodes"])
     return 1 <= n < math.perm(h, p)
 
@@ -798,12 +899,12 @@ def distribution(cases, obss):
         inc(d["attr_selection"], "/".join(c["na"]) + "|" + "/".join(c["ea"]))
         ordered = c.get("vf2") is not None
         d["ordered_cases"] += ordered
-        if not isinstance(obs, list) or (obs and obs[0] == "EXC"):
+        if not isinstance(obs, (list, tuple)) or (obs and obs[0] == "EXC"):
             continue
         o = obs[2:] if ordered else obs[1:]
         try:
-            inc(d["host_components"], len(o[0]["__set__"]))
-            inc(d["pattern_components"], len(o[1]["__set__"]))
+            inc(d["host_components"], _len(o[0]))
+            inc(d["pattern_components"], _len(o[1]))
             full = None
             for cfg, (q, r, _tr) in zip(c["cfgs"], o[2]):
                 inc(d["strategies"], cfg[0])
@@ -811,7 +912,7 @@ def distribution(cases, obss):
                 inc(d["threshold"], cfg[2])
                 inc(d["strict"], cfg[3])
                 inc(d["pre_filter"], cfg[4])
-                n = len(r["__set__"]) if isinstance(r, dict) else len(r)
+                n = _len(r)
                 d["results_nonempty" if n else "results_empty"] += 1
                 d["prefilter_true"] += bool(q)
                 inc(d["result_sizes"], n if n < 10 else "10+")
@@ -1201,6 +1302,41 @@ def _gen_big(rng, n):
     return out
 
 
+def _gen_manycomp(rng, n):
+    """Two-digit counts: hosts that are mixtures of 10-14 small molecules (so the candidate lists of the component-aware
+    search have >= 10 entries) with 1-3-component patterns cut out of them, and patterns with 10-12 atoms (chains with a
+    branch) in hosts of 12-15 atoms."""
+    small = _classes(1) + _classes(2) + rng.sample(_classes(3), 10)
+    out = []
+    cfgs = [["all", None, None, False, False], ["comp", None, None, False, False], ["comp", None, None, True, False],
+            ["bt", None, None, True, False], ["comp", None, 40, False, True]]
+    while len(out) < n:
+        parts = [rng.choice(small) for _ in range(rng.randint(10, 14))]
+        host = _present(_union(parts), rng)
+        pk = rng.randint(1, 3)
+        pat = _present(_union([rng.choice(parts) for _ in range(pk)]), rng, hi_extra=9) if rng.random() < 0.8 else \
+            _present(_union([rng.choice(small) for _ in range(pk)]), rng, hi_extra=9)
+        # the verified enumerator of the model lists ALL monomorphisms (so does the recording GraphMatcher wrapper): keep the
+        # exhaustive result small (a pattern of several lone atoms in a 30-atom mixture has millions of embeddings)
+        if _count_upto(G.to_nx(host), G.to_nx(pat), NA_DEFAULT, EA_DEFAULT, 801) > 800:
+            continue
+        out.append(dict(kind="manycomp", host=host, pattern=pat, na=list(NA_DEFAULT), ea=list(EA_DEFAULT), cfgs=cfgs, vf2=None))
+    for k in range(max(2, n // 4)):
+        m = rng.randint(12, 15)
+        nodes = [[i, dict(element=rng.choice("CCCON"), charge=0, hcount=rng.randint(0, 2))] for i in range(1, m + 1)]
+        edges = [[i, i + 1, dict(order=rng.choice([1, 1, 2]))] for i in range(1, m)] + [[3, m, dict(order=1)]]
+        h = {"nodes": nodes, "edges": edges}
+        keep = set(range(2, 2 + rng.randint(10, 12)))
+        p = {"nodes": [[i + 100, dict(a, hcount=0)] for i, a in nodes if i in keep],
+             "edges": [[u + 100, v + 100, dict(a)] for u, v, a in edges if u in keep and v in keep]}
+        if k % 2:
+            p["nodes"][0][1]["element"] = "N"           # sometimes break the plant
+        out.append(dict(kind="bigpattern", host=G.shuffle_insertion(h, rng), pattern=G.shuffle_insertion(p, rng), na=list(NA_DEFAULT),
+                        ea=list(EA_DEFAULT), cfgs=[["all", None, None, False, False], ["comp", None, None, True, False],
+                                                   ["bt", None, None, False, True]], vf2=None))
+    return out
+
+
 def _rand_edit(rng, g):
     """An in-place edit of the JSON graph `g` (returned as an edit command); half of them keep node and edge counts."""
     ids = [n for n, _ in g["nodes"]]
@@ -1219,8 +1355,15 @@ def _rand_edit(rng, g):
         u, v = rng.sample(ids, 2)
         if not any({a, b} == {u, v} for a, b, _ in g["edges"]):
             return ["add_edge", u, v, {"order": rng.choice([1, 2])}]
-    if len(ids) >= 2 and r < 0.91:
+    if len(ids) >= 2 and r < 0.89:
         return ["remove_node", rng.choice(ids)]
+    if g["edges"] and r < 0.92:       # add_edge on an existing bond: the dictionary is updated
+        u, v, _ = rng.choice(g["edges"])
+        return ["add_edge", v, u, rng.choice([{"order": 2}, {"order": 1, "standard_order": 0}, {}])]
+    if ids and r < 0.94:              # add_edge to a node that does not exist yet: it is created without attributes
+        return ["add_edge", rng.choice(ids), max(ids) + rng.randint(1, 2), {"order": 1}]
+    if ids and r < 0.96:              # add_node on an existing node: the dictionary is updated
+        return ["add_node", rng.choice(ids), rng.choice([dict(element="O"), dict(hcount=rng.randint(0, 2)), dict(charge=1, aromatic=True)])]
     return ["add_node", max(ids + [0]) + rng.randint(1, 3), dict(element=rng.choice("CON"), charge=0, hcount=rng.randint(0, 2))]
 
 
@@ -1547,11 +1690,11 @@ def gen_cases(tier, rng):
     cases = []
     q = tier == "quick"
     cases += _gen_api(rng, 40 if q else 400)
-    cases += _gen_attrs(rng, 150 if q else 3000)
-    cases += _gen_history(rng, 200 if q else 4000)
+    cases += _gen_attrs(rng, 150 if q else 1500)
+    cases += _gen_history(rng, 200 if q else 2000)
     # these carry max_results settings: the result is a prefix in VF2 order, so they are order-sensitive cases (VF2 order recorded)
-    cases += [attach_vf2(c) for c in _gen_styles(rng, 40 if q else 400) + _gen_degenerate(rng, 160 if q else 3000)
-              + _gen_big(rng, 60 if q else 600)]
+    cases += [attach_vf2(c) for c in _gen_styles(rng, 40 if q else 400) + _gen_degenerate(rng, 160 if q else 1500)
+              + _gen_big(rng, 60 if q else 300)]
     cls = {n: _classes(n) for n in (1, 2, 3, 4)}
     # ---- exhaustive iso-class scope, order-insensitive
     hosts = cls[1] + cls[2] + cls[3] + (cls[4] if tier == "thorough" else [])
@@ -1565,7 +1708,7 @@ def gen_cases(tier, rng):
     # ---- sampled hosts <= 4 x patterns <= 3
     big_h = cls[1] + cls[2] + cls[3] + cls[4]
     big_p = cls[1] + cls[2] + cls[3]
-    n_samp = 1500 if tier == "quick" else 60000   # measured: lowest mutant-detection rate per case of all populations
+    n_samp = 1500 if tier == "quick" else 30000   # measured: lowest mutant-detection rate per case of all populations
     for _ in range(n_samp):
         # bias towards 4-node hosts / 3-node patterns (the part not covered exhaustively)
         h = rng.choice(cls[4]) if rng.random() < 0.8 else rng.choice(big_h)
@@ -1574,11 +1717,11 @@ def gen_cases(tier, rng):
         cases.append(dict(kind="samp43", host=hh, pattern=_disjoint(hh, _present(p, rng), rng), na=NA_DEFAULT, ea=EA_DEFAULT,
                           cfgs=SET_CFGS, vf2=None))
     # ---- random molecule-like graphs, order-insensitive
-    for _ in range(1200 if tier == "quick" else 10000):
+    for _ in range(1200 if tier == "quick" else 6000):
         h, p, na, ea = _rand_pair(rng)
         cases.append(dict(kind="mol-set", host=h, pattern=p, na=na, ea=ea, cfgs=SET_CFGS, vf2=None))
     # ---- limits (order-sensitive, VF2 order recorded)
-    n_lim = 1200 if tier == "quick" else 6000
+    n_lim = 1200 if tier == "quick" else 4000
     k = 0
     while k < n_lim:
         if k % 2 == 0:
@@ -1591,6 +1734,8 @@ def gen_cases(tier, rng):
         if c is not None:
             cases.append(c)
             k += 1
+    # ---- round 5: two-digit component counts / pattern sizes
+    cases += _gen_manycomp(rng, 16 if q else 200)
     # ---- round 4/5: targeted histories (per-object memo classes; generated last so that the populations above are unchanged)
-    cases += _gen_history_targeted(rng, 120 if q else 2000)
+    cases += _gen_history_targeted(rng, 120 if q else 1600)
     return cases
